@@ -162,6 +162,7 @@ def filterBody : List String :=
 /-- every place in lib/query (tests aside) that writes HeaderField.IsJoinColumn or .Aliases: file:function:statement -/
 def headerFlagWrites : List String :=
   ["header.go:AddHeaderField:hfield.Aliases=append(hfield.Aliases,alias)",
+   "header.go:Header.Copy:header[i].Aliases=make([]string,len(h[i].Aliases))",
    "header.go:Header.Update:h[i].Aliases=nil",
    "load_view.go:joinViews:view.Header[fidx].IsJoinColumn=true",
    "view.go:View.Fix:hfields[i].Aliases=nil",
